@@ -102,7 +102,7 @@ var templates = []string{
 }
 
 func run(c *core.Ctx) {
-	c.R.Rule = "case = a text the library's parser accepts: every accepted sentence of the viable-prefix token enumeration over 6 alphabets, plus templates with every short literal payload (quoted strings and block strings built from units with quotes, backslashes, escapes for control characters, DEL, non-BMP characters, triple quotes, newlines, indentation) in argument, default-value, directive-argument and description positions; non-trivial = all (only accepted texts are counted); distinct texts"
+	c.R.Rule = "case = a text the library's parser accepts: every accepted sentence of the viable-prefix token enumeration over 6 alphabets, every accepted text within two token edits of 18 long sentences that span all productions, plus templates with every short literal payload (quoted strings and block strings built from units with quotes, backslashes, escapes for control characters, DEL, non-BMP characters, triple quotes, newlines, indentation) in argument, default-value, directive-argument and description positions; non-trivial = all (only accepted texts are counted); distinct texts"
 	c.R.Assumptions = []string{"the parser is judged by C03; here it only supplies ASTs and re-parses printed text", "structural equality = canonical dump of all exported AST fields without locations", "Go toolchain"}
 	qi := 0
 	if !c.Quick() {
@@ -127,6 +127,15 @@ func run(c *core.Ctx) {
 			c.Mismatch(classify(string(text), bad), sigOf(bad), fmt.Sprintf("%q: %s", text, bad), map[string]interface{}{"text": string(text)})
 		}
 		return ext
+	}
+	// neighbourhoods of long sentences (every production, deep inside definitions)
+	{
+		window := c.Pick(1, 2)
+		c.R.Bounds["corpus_sentences"] = len(langx.Corpus)
+		c.R.Bounds["corpus_second_edit_window"] = window
+		langx.Neighbourhood(window, c.Shard, c.NShards, langx.ReducedEditAlphabet, func(seed int, toks []string, text []byte) {
+			visit("corpus-edits", toks, text)
+		})
 	}
 	for _, a := range langx.Alphabets {
 		if c.Expired() {
